@@ -143,6 +143,27 @@ scen("C01", "nth-child-coefficient-beyond-i32", "<style>:nth-child(0):nth-child(
 scen("C01", "nth-child-b-near-i32-min", "<ul><li>a<li>b</ul>",
      cfg("Rich", css=[{"agent": False, "text": "li:nth-child(n-2147483647){color:red;}"}]), [one("OneShotLines", 20)],
      note="fixed (nth-child fix): idx - b overflowed while matching")
+scen("C01", "emoji-presentation-sequence-at-line-end", "<p>one two aaaaaaaaa\u263a\ufe0f three</p>", cfg("Plain"),
+     [one("OneShotString", 10)],
+     note="fixed (width fix): the word's width as a string (11) and as characters (10) disagree; lineleft -= w underflowed")
+scen("C01", "flag-sequence-width-1", "\u00a9 \U0001f3f3\ufe0f", cfg("Rich"), staged("RenderString", 1),
+     note="fixed (width fix): found by C01 quick, same subtraction")
+scen("C01", "variation-selector-zero-width-block-loop", "<p>\u263a\ufe0f y</p>",
+     cfg("Rich", allow_width_overflow=True, max_wrap_width=0, no_table_borders=True), [one("OneShotColoured", 20)],
+     note="fixed (width fix): hard wrap never finished (string width 2, characters 1): endless empty lines until memory ran out")
+scen("C01", "table-cell-emoji-sequence-line-width", "<table><tr><td>\u263a\ufe0f a</td><td>x</td></tr></table><p>\u0644\u0627 \u0644\u0627</p>",
+     cfg("Plain", pad_block_width=True), [one("OneShotString", 20), one("OneShotLines", 7)],
+     note="boundary case for the width fix: sequences measured differently as strings and as characters, in padded cells and blocks")
+scen("C01", "compound-selector-70000-classes", "<p class=c0>x</p><p>y</p>",
+     cfg("Plain", css=[{"agent": False, "text": ".c0" * 70000 + " { color: red; }"}]), [one("OneShotString", 20)], stack_kib=2048,
+     note="fixed (matcher fix): one stack frame per selector component; u16 specificity counters overflowed")
+scen("C01", "child-chain-selector-3000", nest("<div>", 3000, inner="<b class=c0>x</b>"),
+     cfg("Rich", css=[{"agent": True, "text": " > ".join(["div"] * 2999) + " > b { color: red; }"}]), [one("OneShotLines", 20)], stack_kib=256,
+     note="fixed (matcher fix): one stack frame per combinator")
+scen("C01", "alternating-combinators-selector", nest("<div><p>", 400, inner="<b class=c0>x</b>"),
+     cfg("Rich", css=[{"agent": False, "text": "x " + " ".join(["div > p"] * 300) + " b { color: red; } " + " ".join(["div > p"] * 350) + " b { color: #00f; }"}]),
+     [one("OneShotLines", 20)], stack_kib=256,
+     note="boundary case for the matcher fix: choices kept in a vector instead of on the stack")
 scen("C01", "hard-error-at-every-stage", "<p>hello <b>world</b></p>" * 300, cfg("Plain"),
      [one("OneShotString", 40, plan([{"Data": 100}, "Eintr"], err_at=[4096, "ConnectionReset"])),
       one("OneShotLines", 40, plan(err_at=[0, "WouldBlock"])),
